@@ -17,7 +17,7 @@ MODELLED = ("the validation / mutation order of __iadd__, __isub__, __imul__, __
 OPAQUE_SAFE = ["add_scalar", "add_list", "mul_hist", "div_hist", "fill_str_weight", "fill_wrong_dim", "dtype_complex", "set_freq_wrong_shape", "set_freq_negative", "set_err_negative", "sub_scalar"]
 OPAQUE = ["add_scalar", "add_list", "mul_hist", "div_hist", "mul_list", "merge_zero", "merge_half", "merge_all_gap",
           "fill_str_weight", "fill_wrong_dim", "fill_n_wrong_weights", "fill_n_wrong_cols", "fill_n_strings", "dtype_complex",
-          "bad_axis_merge", "set_freq_wrong_shape", "set_freq_negative", "set_err_negative", "sub_scalar", "normalize_bad_axis", "derive_then_grow"]
+          "bad_axis_merge", "set_freq_wrong_shape", "set_freq_negative", "set_err_negative", "sub_scalar", "normalize_bad_axis", "derive_then_grow", "sub_more_unsigned"]
 
 def gen(rng, n, tier):
     for i in range(n):
@@ -133,6 +133,24 @@ def _opaque(h, name):
         h.fill(far)
         if not (_shapes_ok(p) and _shapes_ok(q) and _shapes_ok(t) and _shapes_ok(h)):
             raise AssertionError("a derived histogram (or its source) no longer matches its bins")
+    elif name == "sub_more_unsigned":
+        # subtracting more than is there is refused whatever the content dtype - also where the difference would wrap instead of going negative
+        from physt.histogram1d import Histogram1D
+        from physt.histogram_nd import HistogramND
+        ok = True
+        for dt in (np.uint8, np.uint16, np.uint32, np.uint64):
+            bs = [b.copy() for b in h._binnings]
+            if not all(b.bin_count for b in bs): continue
+            one = np.ones(tuple(b.bin_count for b in bs), dtype=dt)
+            mk = (lambda arr: Histogram1D(bs[0].copy(), arr.copy(), dtype=dt)) if len(bs) == 1 else (lambda arr: HistogramND([b.copy() for b in bs], arr.copy(), dtype=dt))
+            a, b2 = mk(one), mk(one * 2)
+            before = np.asarray(a.frequencies).tolist()
+            try:
+                a -= b2
+                ok = False      # accepted: recorded contents can only be wrong
+            except Exception:
+                ok = ok and np.asarray(a.frequencies).tolist() == before
+        return ok
     elif name == "normalize_bad_axis":
         if h.ndim != 2: raise ValueError("n/a")
         h.partial_normalize(5, inplace=True)
@@ -147,10 +165,10 @@ def impl(case):
         warnings.simplefilter("ignore")
         for op in d["ops"]:
             before = _cells(h); mb = [float(x) for x in np.asarray(h._missed).tolist()]
-            raised = False
+            raised = False; aux = None
             try:
                 k = op[0]
-                if k == "opaque": _opaque(h, op[1])
+                if k == "opaque": aux = _opaque(h, op[1])
                 elif k == "fill":
                     idx = np.unravel_index(op[1], h.shape)
                     v = [float(h.get_bin_centers(i)[j]) for i, j in enumerate(idx)] if h.ndim > 1 else float(h.bin_centers[idx[0]])
@@ -165,7 +183,7 @@ def impl(case):
                 raised = True
             try: after = _cells(h)
             except (IndexError, ValueError): after = before      # arrays no longer match the bins: reported through the shape flag
-            out.append([raised, before, after, mb, [float(x) for x in np.asarray(h._missed).tolist()], _shapes_ok(h)])
+            out.append([raised, before, after, mb, [float(x) for x in np.asarray(h._missed).tolist()], _shapes_ok(h) and aux is not False])
     return out
 
 def corr_view(case, obs): return [o[0] for o in obs]
